@@ -1017,3 +1017,44 @@ def run_dcase(case):
         label_new(cx, doc)
         out.append(ON("op", [ob, snapshot(cx, doc)]))
     return ON("d", out)
+
+
+# ----------------------------------------------------------------------------- cyclic structures (C20)
+def build_heap(heap):
+    objs = []
+    for n in heap:
+        objs.append({} if n[0] == 'dict' else ([] if n[0] == 'list' else n[1]))
+    for o, n in zip(objs, heap):
+        if n[0] == 'dict':
+            for k, i in n[1]:
+                o[k] = objs[i]
+        elif n[0] == 'list':
+            for i in n[1]:
+                o.append(objs[i])
+    return objs
+
+
+def run_ccase(case):
+    cx = Ctx()
+    objs = build_heap(case['heap'])
+    index = {id(o): i for i, o in enumerate(objs) if isinstance(o, (dict, list))}
+
+    def hval(v):
+        if isinstance(v, dict):
+            return ON("dictref", [OZ(index.get(id(v), -1))])
+        if isinstance(v, list):
+            return ON("listref", [OZ(index.get(id(v), -1))])
+        return lval(cx, v)
+    e = _build_path(cx, case['path'])
+    root = objs[case['root']]
+    it = find(e, root) if case['vals'] else find_matches(e, root)
+    out = []
+    for _ in range(case['nexts']):
+        try:
+            r = next(it)
+            out.append(ON("value", [hval(r)]) if case['vals'] else ON("result", [OS(r.path_as_str), hval(r.data)]))
+        except BaseException as x:  # noqa
+            if isinstance(x, (KeyboardInterrupt, SystemExit, MemoryError)):
+                raise
+            out.append(ON("raise", [oexn(x)]))
+    return ON("c", out)
